@@ -2,7 +2,9 @@ package main
 
 import (
 	"fmt"
+	"go/constant"
 	"go/token"
+	"strings"
 
 	"golang.org/x/tools/go/ssa"
 )
@@ -78,6 +80,17 @@ func runC12(c *Ctx) {
 					}
 				}
 				c.obI("R12.1", cc, "timeout-is-request-timeout", okT, "the deadline is the request's timeout", "")
+				// the derivation WITHOUT a deadline is taken only when the request has no timeout: nothing else (a client-side
+				// Timeout, a debug flag …) may waive the request's deadline
+				wtArg := cc.Common().Args[1]
+				isT := func(v ssa.Value) bool {
+					return vFieldLoadO(clientReqT, "timeout")(v) || vOrigins(oIsValue(wtArg))(v) || sameVal(v, wtArg)
+				}
+				for _, wc := range ctxCalls {
+					if calleeName(wc.Common()) == "context.WithCancel" {
+						c.obI("R12.1", wc, "no-deadline-only-without-timeout", guardedBy(wc, nil, factNotPositive(isT)), "the context without a deadline is derived only when the request's timeout is zero", "the deadline-less derivation is reachable with a non-zero request timeout")
+					}
+				}
 			}
 		}
 		// precedence kept as an ordered table of candidates: the operation's context is listed before the transport's
@@ -133,7 +146,7 @@ func runC12(c *Ctx) {
 				continue
 			}
 			// (a nil response has no body to close)
-			leak := pathExists(sub, do, r, anyFact(factNil(vIs(derr), false), factNil(vIs(resultOf(do, 0)), true)), isOneOf(closes...))
+			leak := pathExists(sub, do, r, anyFact(factNil(errAlias(derr), false), factNil(vIs(resultOf(do, 0)), true)), isOneOf(closes...))
 			c.obI("R12.2", r, "body-close-deferred-before-return", !leak, "once client.Do succeeded, no return is reachable before res.Body.Close has been deferred (malformed content type, missing consumer and debug-dump failures included)", "a return after a successful Do leaves the response body open")
 		}
 		checkErrorsReturned(c, "R12.2", sub, 1, nil)
@@ -348,6 +361,24 @@ func runC12(c *Ctx) {
 			c.obI("R12.4", r, "pipe-closer-registered-on-every-exit", !pathExists(g, nil, r, nil, isOneOf(pipeCloser)), "the pipe closer is registered before any exit", "")
 		}
 	}
+	// the files are closed BEFORE the body is ended: the transport (and with it Submit) can only see the end of the request
+	// body once the pipe writer is closed, so closing the files first is what makes "returned => files closed" hold
+	if fileCloser != nil && pipeCloser != nil {
+		const rule = "the upload files are closed before the pipe writer is (deferred calls run last-in first-out): the end of the body is never visible while a file is still open"
+		if fileCloser != pipeCloser {
+			c.obI("R12.4", fileCloser, "files-closed-before-body-ends", dominates(pipeCloser, fileCloser), rule, "the file closer is registered before the pipe closer, so it runs after the body was ended")
+		} else if df := deferredBody(fileCloser); df != nil {
+			late := false
+			for _, pc := range callsIn(df, "(*io.PipeWriter).Close") {
+				for _, ci := range allCalls(df) {
+					if ci.Common().IsInvoke() && ci.Common().Method.Name() == "Close" && typeStr(ci.Common().Value.Type()) == "rt.NamedReadCloser" && pathExists(df, pc, ci, nil, nil) {
+						late = true
+					}
+				}
+			}
+			c.obI("R12.4", fileCloser, "files-closed-before-body-ends", !late, rule, "in the deferred function a file is closed after the pipe writer was closed")
+		}
+	}
 	ruleUploadFailuresPropagated(c, "R12.4", g)
 	ruleCopyFailureKept(c, "R12.4")
 	c.min("R12.4", 9)
@@ -433,12 +464,8 @@ func runC12(c *Ctx) {
 		for _, st := range callsIn(rd, "sync/atomic.StoreUint32", "(*sync/atomic.Bool).Store") {
 			c.obI("R12.5", st, "end-seen-only-at-eof-or-empty-read", guardedBy(st, call, anyFact(isEOFfact, zero)), "the end of the body is recorded only when Read returned io.EOF or no bytes — a merely short read is not the end (the drain must still run so the connection can be reused)", "the end is recorded on a condition other than io.EOF / n == 0")
 		}
-		for _, r := range realReturns(rd) {
-			ok0, _ := allOrigins(resOf(r, 0), oIsValue(n))
-			ok1, _ := allOrigins(resOf(r, 1), oIsValue(err))
-			c.obI("R12.5", r, "read-transparent", ok0 && ok1, "Read returns the wrapped body's results unchanged", "")
-		}
 	}
+	ruleDrainingReadTransparent(c, "R12.5")
 	rt := p.Fn("(*rt/client.keepAliveTransport).RoundTrip")
 	for _, st := range fieldStores(rt, "net/http.Response", "Body") {
 		var rtc *ssa.Call
@@ -449,6 +476,39 @@ func runC12(c *Ctx) {
 		}
 		ok := rtc != nil && guardedBy(st, rtc, factNil(vIs(resultOf(rtc, 1)), true))
 		c.obI("R12.5", st, "wraps-only-successful-responses", ok, "only a successful response's body is wrapped", "")
+		// every response gets a wrapper that has not seen any end yet: a new one (zero seenEOF), or one whose end flag is
+		// reset before it is installed — a recycled wrapper still flagged from an earlier exchange would skip the drain
+		w := st.Val
+		if mi, isMI := w.(*ssa.MakeInterface); isMI {
+			w = mi.X
+		}
+		fresh, bad := allOrigins(w, func(o Origin) bool {
+			al, isAl := o.V.(*ssa.Alloc)
+			if isAl && strings.HasSuffix(typeStr(al.Type()), "drainingReadCloser") {
+				return true
+			}
+			// not new: its end flag must be reset on the way to the installation
+			for _, fn := range withClosures(rt) {
+				for _, fs := range fieldStores(fn, "rt/client.drainingReadCloser", "seenEOF") {
+					if k, isK := constInt(fs.Val); isK && k == 0 && dominates(fs, st) {
+						return true
+					}
+				}
+				for _, ci := range callsIn(fn, "sync/atomic.StoreUint32", "(*sync/atomic.Bool).Store", "(*sync/atomic.Uint32).Store") {
+					_, a := callArgs(ci.Common())
+					last := a[len(a)-1]
+					k, isK := constInt(last)
+					if cb, isB := last.(*ssa.Const); isB && cb.Value != nil && cb.Value.Kind() == constant.Bool {
+						isK, k = true, map[bool]int64{false: 0, true: 1}[constant.BoolVal(cb.Value)]
+					}
+					if isK && k == 0 && dominates(ci, st) {
+						return true
+					}
+				}
+			}
+			return false
+		})
+		c.obI("R12.5", st, "wrapper-starts-with-end-unseen", fresh, "the draining wrapper installed for a response is new (or its end-seen flag is reset first): no response inherits the end-seen state of an earlier exchange", "wrapper origin "+describeOrigin(bad)+" is neither newly allocated nor reset")
 	}
 	{
 		var rtc *ssa.Call
@@ -828,4 +888,30 @@ func endSeenFact(want bool) EdgePred {
 		return ld != nil && calleeName(&ld.Call) == "(*sync/atomic.Bool).Load"
 	}
 	return anyFact(factEqInt(isLoadU32, 1, want), factBool(isLoadBool, want))
+}
+
+// ruleDrainingReadTransparent: the draining wrapper hands every Read to the wrapped body and returns that very result: the
+// reader sees the body unchanged (shared by C12 and C13).
+func ruleDrainingReadTransparent(c *Ctx, rule string) {
+	rd := c.P.Fn("(*rt/client.drainingReadCloser).Read")
+	n0 := 0
+	for _, ci := range allCalls(rd) {
+		if !ci.Common().IsInvoke() || ci.Common().Method.Name() != "Read" {
+			continue
+		}
+		call, isCall := ci.(*ssa.Call)
+		if !isCall {
+			continue
+		}
+		n0++
+		n, err := resultOf(call, 0), resultOf(call, 1)
+		for _, r := range realReturns(rd) {
+			ok0, _ := allOrigins(resOf(r, 0), oIsValue(n))
+			ok1, _ := allOrigins(resOf(r, 1), oIsValue(err))
+			c.obI(rule, r, "read-transparent", ok0 && ok1, "Read returns the wrapped body's results unchanged (on every path: no answer is made up without asking the wrapped body)", "")
+		}
+		_, a := callArgs(&call.Call)
+		c.obI(rule, call, "read-into-callers-buffer", len(a) == 1 && sameVal(a[0], rd.Params[1]), "the wrapped body reads into the caller's buffer itself", "")
+	}
+	c.obRF(rule, rd, "reads-wrapped-body", n0 == 1, "Read reads the wrapped body once", fmt.Sprintf("%d reads", n0))
 }
